@@ -11,9 +11,10 @@
 //	                                      body back (same root, same bytes); with another payload it is refused
 //
 // Sensitivity (tools/trymut.py, quick tier):
-//   D1 deneb Header(): BodyRoot computed from a body without BlobKZGCommitments   deneb.BeaconBlock/Header()/root-differs
-//   D2 capella Shallow() drops BLSToExecutionChanges                               capella.BeaconBlockBody/Shallow()/root-differs
-//   D3 bellatrix WithExecutionPayload skips the root comparison                    bellatrix.BeaconBlockBody/WithExecutionPayload/accepts-other-payload
+//
+//	D1 deneb Header(): BodyRoot computed from a body without BlobKZGCommitments   deneb.BeaconBlock/Header()/root-differs
+//	D2 capella Shallow() drops BLSToExecutionChanges                               capella.BeaconBlockBody/Shallow()/root-differs
+//	D3 bellatrix WithExecutionPayload skips the root comparison                    bellatrix.BeaconBlockBody/WithExecutionPayload/accepts-other-payload
 package c05
 
 import (
